@@ -134,6 +134,7 @@ def parseFrame : List String → Option (Dir × Frame)
     let d ← parseDir e; let s ← sid.toNat?; let b ← parseBool es
     let p ← parsePrio prio; let r ← parseReps reps
     some (d, .headersRep s b p r)
+  | ["cdata", e, sid, es, pad, payload]   -- DATA from a sender that keeps its own send window (harness-side check)
   | ["data", e, sid, es, pad, payload] => do
     let d ← parseDir e; let s ← sid.toNat?; let b ← parseBool es; let p ← parseBytes payload
     let pl ← if pad = "-" then some none else pad.toNat?.map some
